@@ -80,12 +80,17 @@ def hostQuery : Backend → Option Out
   | .panos => some (.lit "type=config&action=get&xpath=/config/devices")
   | .nsx => none
 
+/-- the text of a reply (a reply that is no text counts as the empty text) -/
+def replyText : Reply → List Char
+  | .text s => s.toList
+  | _ => []
+
 /-- The reply reports hostname `name` (what the answer to the hostname query means on each
 platform: the output line, the prompt without `#`, the `<hostname>` element). -/
 def hostIs (b : Backend) (r : Reply) (name : String) : Bool :=
   match b, r with
-  | .asa, .text s | .linux, .text s => trimSuffixL s.toList ['\n'] == name.toList
-  | .ios, .text s => trimSuffixL (trimSpaceL s.toList) ['#'] == name.toList
+  | .asa, r | .linux, r => trimSuffixL (replyText r) ['\n'] == name.toList
+  | .ios, r => trimSuffixL (trimSpaceL (replyText r)) ['#'] == name.toList
   | .panos, .conf h _ => h == name
   | _, _ => false
 
@@ -93,9 +98,10 @@ def hostIs (b : Backend) (r : Reply) (name : String) : Bool :=
 def WrongHost (b : Backend) (names : List String) (dev : Dev) : Prop :=
   ∀ q, hostQuery b = some q → ∀ hist n, n ∈ names → hostIs b (dev hist q) n = false
 
-/-- ASA / IOS: no sequence of texts the device ever sends matches the configured banner regexp. -/
-def MarkerNever (dev : Dev) (m : List String → Bool) : Prop :=
-  ∀ l : List String, (∀ s ∈ l, ∃ hist o, dev hist o = .text s) → m l = false
+/-- ASA / IOS: the configured banner regexp matches no concatenation of texts the device ever
+sends (the code searches the concatenated output of the login dialogue). -/
+def MarkerNever (dev : Dev) (r : Rx) : Prop :=
+  ∀ l : List String, (∀ s ∈ l, ∃ hist o, dev hist o = .text s) → r.search (String.join l).toList = false
 
 def linuxMarkerQuery (cfg : Cfg) : Out := .litArg "grep '" cfg.bannerSrc
 
@@ -106,11 +112,31 @@ def LinuxNoMarker (cfg : Cfg) (dev : Dev) : Prop :=
 def panConfQuery : Out := .lit "type=config&action=get&xpath=/config/devices"
 def panHaQuery : Out := .lit "type=op&cmd=<show><high-availability><state/></high-availability></show>"
 
+/-- PAN-OS marker: the word `netspoc`, in any case, somewhere in the display-name. -/
+def vsysMarked (displayName : String) : Bool := infixL (lowerL displayName.toList) "netspoc".toList
+
 /-- PAN-OS: whenever the device shows its configuration, some vsys that Netspoc manages has no
 `netspoc` in its display-name. -/
 def PanNoMarker (cfg : Cfg) (dev : Dev) : Prop :=
   ∀ hist h vs, dev hist panConfQuery = .conf h vs →
-    ∃ v ∈ vs, v.1 ∈ cfg.targetVsys ∧ cfg.isMarked v.2 = false
+    ∃ v ∈ vs, v.1 ∈ cfg.targetVsys ∧ vsysMarked v.2 = false
+
+/-! ### Linux: what `grep '<re>' /etc/issue` prints on a host whose /etc/issue is `issue` -/
+
+def splitLines : List Char → List (List Char)
+  | [] => [[]]
+  | c :: cs =>
+    match splitLines cs with
+    | [] => [[]]
+    | l :: ls => if c == '\n' then [] :: l :: ls else (c :: l) :: ls
+
+/-- the matching lines, each followed by a newline -/
+def grepOut (r : Rx) (issue : List Char) : List Char :=
+  ((splitLines issue).filter fun l => !l.isEmpty && r.search l).flatMap fun l => l ++ ['\n']
+
+/-- A Linux host with this /etc/issue: it answers the grep query with the matching lines. -/
+def LinuxIssue (cfg : Cfg) (r : Rx) (dev : Dev) (issue : String) : Prop :=
+  ∀ hist, ∃ s, dev hist (linuxMarkerQuery cfg) = .text s ∧ s.toList = grepOut r issue.toList
 
 /-- HA state that permits configuration: HA disabled, or the active / active-primary member. -/
 def haActive : Reply → Bool
